@@ -8,7 +8,7 @@
 EXTENDS Integers, Sequences, FiniteSets, TLC
 
 Routes == {"root", "peers", "add", "delete", "set", "set-torrent", "junk", "torrent-dir", "torrent-file", "torrent-meta", "playlist", "subdir", "file",
-           "single-dir", "single-playlist", "single-dirplaylist"}   \* the same views of a single-file torrent (its name is the file name)
+           "single-dir", "single-playlist", "single-dirplaylist", "magnet-dir"}   \* the same views of a single-file torrent (its name is the file name)
 Methods == {"GET", "HEAD", "POST", "PUT", "DELETE"}
 \* host classes: local ones, foreign DNS names (with and without port), the same name in capitals, none
 Hosts == {"localhost:p", "127.0.0.1:p", "[::1]:p", "evil.example:p", "evil.example", "localhost.evil.example:p", "LOCALHOST:p", "empty"}
@@ -17,7 +17,8 @@ Local(h)   == h \in {"localhost:p", "127.0.0.1:p", "[::1]:p"}
 Changes(r) == r \in {"add", "delete", "set", "set-torrent"}
 
 \* which hostile sources a successfully rendered page shows
-Sources == {"name", "dir-component", "file-component", "tracker-url", "tracker-error", "webseed-url", "known-version", "peer-id-code", "single-name"}
+Sources == {"name", "dir-component", "file-component", "tracker-url", "tracker-error", "webseed-url", "known-version", "peer-id-code", "single-name",
+            "magnet-name"}      \* the dn= of a magnet link whose metadata has not arrived: the torrent is listed under it
 Shown(r) == CASE r = "root"        -> {"name", "dir-component", "file-component"}
               [] r = "torrent-dir" -> {"name", "dir-component", "file-component"}
               [] r = "subdir"      -> {"name", "dir-component", "file-component"}
